@@ -18,7 +18,7 @@ ASSUMPTIONS = [
 ]
 COMPONENTS = {"real": ["VM fuel/preemption", "sexp_scheduler", "mutex/condvar/join/sleep primitives", "lib/srfi/18/interface.scm retry loops", "collector"],
               "stub": ["slice lengths", "gettimeofday/usleep (simulated clock)", "collection schedule"]}
-BUDGET = {"quick": {"seconds": 75, "cases": 20000}, "thorough": {"seconds": 1500, "cases": 2000000}}
+BUDGET = {"quick": {"seconds": 75, "cases": 20000, "min_cases": 600}, "thorough": {"seconds": 1500, "cases": 2000000}}
 CONFIGS = {
     "sim": {"variant": "sim", "imports": ["(srfi 18)", "(srfi 39)", "(srfi 95)"], "timeout_ms": 60000},
     "asan": {"variant": "asan", "imports": ["(srfi 18)", "(srfi 39)", "(srfi 95)"], "timeout_ms": 180000},
